@@ -65,9 +65,27 @@ pub(crate) struct ExtWaker<'a, 'b> {
     ext: SendWrapper<&'a Ext<'b>>,
 }
 
+// The vtables are `static`s, not promoted constants: `get_ext`/`get_waker` recognise our
+// wakers by their vtable, and a constant is instantiated (together with possibly inlined copies
+// of the tiny functions in it) once per crate that monomorphizes `ExtWaker::with`, so the
+// comparison failed in optimized builds and the extension (cancel token, personality) was
+// silently invisible. A static has exactly one address and one content.
+static EXT_WAKER_VTABLE: RawWakerVTable = RawWakerVTable::new(
+    ExtWaker::clone,
+    ExtWaker::wake,
+    ExtWaker::wake_by_ref,
+    ExtWaker::drop,
+);
+
+static OWNED_EXT_WAKER_VTABLE: RawWakerVTable = RawWakerVTable::new(
+    OwnedExtWaker::clone,
+    OwnedExtWaker::wake,
+    OwnedExtWaker::wake_by_ref,
+    OwnedExtWaker::drop,
+);
+
 impl<'a, 'b> ExtWaker<'a, 'b> {
-    const VTABLE: &'static RawWakerVTable =
-        &RawWakerVTable::new(Self::clone, Self::wake, Self::wake_by_ref, Self::drop);
+    const VTABLE: &'static RawWakerVTable = &EXT_WAKER_VTABLE;
 
     pub fn new(waker: &'a Waker, ext: &'a Ext<'b>) -> Self {
         Self {
@@ -146,8 +164,7 @@ impl Drop for Inner {
 }
 
 impl OwnedExtWaker {
-    const VTABLE: &'static RawWakerVTable =
-        &RawWakerVTable::new(Self::clone, Self::wake, Self::wake_by_ref, Self::drop);
+    const VTABLE: &'static RawWakerVTable = &OWNED_EXT_WAKER_VTABLE;
 
     unsafe fn clone(ptr: *const ()) -> RawWaker {
         unsafe { Arc::increment_strong_count(ptr.cast::<Inner>()) };
